@@ -121,8 +121,8 @@ func Run(t *testing.T, p *Prop) {
 	st := NewStats(p.Part)
 	defer st.Write()
 
-	var last *Case
-	var lastFail *Failure
+	var last, first *Case
+	var lastFail, firstFail *Failure
 	ct := &capture{t: t}
 	func() {
 		defer func() {
@@ -145,6 +145,9 @@ func Run(t *testing.T, p *Prop) {
 			}
 			if f := p.RunCheck(c, st); f != nil {
 				lastFail = f
+				if first == nil {
+					first, firstFail = c, f
+				}
 				rt.Fatalf("%s", f.Sig)
 			}
 		})
@@ -159,6 +162,18 @@ func Run(t *testing.T, p *Prop) {
 	}
 	// The last execution is rapid's replay of the minimal failing
 	// bit stream.
+	if (last == nil || lastFail == nil) && first != nil {
+		// The failure did not show again when rapid re-ran the case in
+		// this process: it depends on what the process did before (state
+		// kept by the code under test across calls). The first failing
+		// case is kept as it is; replayed in a fresh process it is the
+		// reproduction.
+		path := WriteReplay(p, first, firstFail)
+		st.Failures = append(st.Failures, FailRecord{Sig: firstFail.Sig, Msg: firstFail.Msg, Replay: path})
+		fmt.Printf("FAILCASE property=%s part=%s sig=%q replay=%s\n(not reproduced by a second run in the same process: history-dependent; the case is not reduced)\n%s\n", p.ID, p.Part, firstFail.Sig, path, firstFail.Msg)
+		t.Fail()
+		return
+	}
 	if last == nil || lastFail == nil {
 		st.Failures = append(st.Failures, FailRecord{Sig: "generator or runner failure", Msg: strings.Join(ct.msgs, "\n")})
 		t.Fail()
